@@ -312,23 +312,23 @@ def run(rep, tier, seed):
                 specs.append(mk_spec([f, "take"], "eduction", 3, to, n_range=(1, 2)))
     pairs = [p for p in itertools.permutations(FUNS, 2) if sum(1 for f in p if FUNS[f][3]) <= 1]
     rnd.shuffle(pairs)
-    for p in pairs[:(4 if quick else 40)]:
+    for p in pairs[:(4 if quick else 20)]:
         for form in (["into", "lazy-seq"] if quick else ["into", "lazy-seq", "sequence", "transduce"]):
             specs.append(mk_spec(list(p), form, 2 if quick else 3, to))
     if not quick:
         triples = [t for t in itertools.permutations(FUNS, 3) if sum(1 for f in t if FUNS[f][3]) <= 1]
         rnd.shuffle(triples)
-        for t in triples[:20]:
+        for t in triples[:10]:
             specs.append(mk_spec(list(t), "into", 3, to))
             specs.append(mk_spec(list(t), "sequence", 3, to))
         for f in FUNS:
-            for ct in ("list", "lazy", "pyiter"):
+            for ct in ("lazy",):
                 specs.append(mk_spec([f], "into", 3, to, ct))
                 specs.append(mk_spec([f], "lazy-seq", 3, to, ct))
     specs += early_specs(maxlen, to)
     rep.bounds = {"input_length": f"<= {maxlen}", "elements": "every list over {nil, false, true, 0, 1, 2, :a} up to the length bound (solver-chosen codes)", "numeric params": "0..2 / 1..2",
-                  "pipelines": f"all single functions x 5 application forms; {4 if quick else 40} sampled pairs (VERIF_SEED)"
-                               + ("" if quick else "; 20 sampled triples; list/lazy/python-iterable inputs")}
+                  "pipelines": f"all single functions x 5 application forms; {4 if quick else 20} sampled pairs (VERIF_SEED)"
+                               + ("" if quick else "; 10 sampled triples; lazy-seq inputs")}
     rep.outside = ["inputs longer than the bound", "pipeline shapes are enumerated/sampled, not solver-chosen"]
     rep.trusted += ["crosshair-tool 0.0.110 + z3", "18 Python reference definitions in vlib/props/c07.py"]
     rep.assumptions += ["native LazySeq/Cons (Rust) only store and call what they are given (they run concretely under CrossHair)"]
